@@ -74,8 +74,14 @@ func genV2(r *rand.Rand, self peer.ID, others []peer.ID, status datatransfer.Sta
 		stages = cborx.L{list}
 	}
 	var sel any = cborx.FromPlain(gen.Plain(r, 2))
+	// the SelfPeer a record was written with is a stored field of its own: after a key rotation or a
+	// restored backup it differs from the identity the module runs under now (and may be neither party)
+	storedSelf := self
+	if r.Intn(6) == 0 {
+		storedSelf = others[len(others)-1]
+	}
 	v2 := cborx.M{
-		"SelfPeer": cborx.Txt(self), "TransferID": tid, "Initiator": cborx.Txt(ini), "Responder": cborx.Txt(rsp),
+		"SelfPeer": cborx.Txt(storedSelf), "TransferID": tid, "Initiator": cborx.Txt(ini), "Responder": cborx.Txt(rsp),
 		"BaseCid": gen.Cid(r), "Selector": sel, "Sender": cborx.Txt(snd), "Recipient": cborx.Txt(rcp),
 		"TotalSize": bigU(r), "Status": uint64(status), "Queued": bigU(r), "Sent": bigU(r), "Received": bigU(r),
 		"Message": randMsg(r), "Vouchers": vs, "VoucherResults": rs,
